@@ -179,6 +179,7 @@ type bfdEv struct {
 	State   st
 	Dt      time.Duration
 	TxUs    uint32
+	RxUs    uint32 // Required Min RX Interval of the packet (what the peer asks us to respect when sending)
 	Mult    uint8
 	Discard string // non-empty: a packet RFC 5880 6.8.6 says to discard
 }
@@ -210,6 +211,10 @@ func genHistory(rt *rapid.T, allowAdminDown bool) []bfdEv {
 			}
 			e := bfdEv{Kind: "recv", State: st(rapid.IntRange(lo, 3).Draw(rt, "state")),
 				TxUs: uint32(rapid.IntRange(1, 400).Draw(rt, "txms"))*1000 + 250, Mult: uint8(rapid.IntRange(1, 3).Draw(rt, "mult"))}
+			e.RxUs = 100000
+			if rapid.IntRange(0, 3).Draw(rt, "slowPeer") == 0 {
+				e.RxUs = uint32(rapid.IntRange(1, 3000).Draw(rt, "rxms")) * 1000
+			}
 			if lo == 0 {
 				e.State = layers.BFDStateAdminDown
 			}
@@ -230,7 +235,7 @@ func genHistory(rt *rapid.T, allowAdminDown bool) []bfdEv {
 func mkPacket(e bfdEv, local layers.BFDDiscriminator) *layers.BFD {
 	p := &layers.BFD{Version: 1, State: e.State, DetectMultiplier: layers.BFDDetectMultiplier(e.Mult),
 		MyDiscriminator: 77, YourDiscriminator: local,
-		DesiredMinTxInterval: layers.BFDTimeInterval(e.TxUs), RequiredMinRxInterval: 100000}
+		DesiredMinTxInterval: layers.BFDTimeInterval(e.TxUs), RequiredMinRxInterval: layers.BFDTimeInterval(e.RxUs)}
 	switch e.Discard {
 	case "version":
 		p.Version = 0
@@ -278,6 +283,7 @@ func runHistory(evs []bfdEv, sticky bool, lab map[string]int) (fail string, s *b
 	synctest.Wait()
 	model := layers.BFDStateDown
 	var deadline time.Time
+	lastRx := time.Duration(0) // the pace the peer last asked for
 	start := time.Now()
 	for i, e := range evs {
 		if e.Kind == "recv" {
@@ -299,6 +305,10 @@ func runHistory(evs []bfdEv, sticky bool, lab map[string]int) (fail string, s *b
 					}
 				}
 				deadline = time.Now().Add(time.Duration(e.Mult) * max(reqRx, time.Duration(e.TxUs)*time.Microsecond))
+				lastRx = time.Duration(e.RxUs) * time.Microsecond
+				if e.RxUs > 1000000 {
+					lab["peer_asks_slow_pace"]++
+				}
 			}
 		} else {
 			end := time.Now().Add(e.Dt)
@@ -319,8 +329,9 @@ func runHistory(evs []bfdEv, sticky bool, lab map[string]int) (fail string, s *b
 	}
 	// the state advertised in control packets follows the model: let two transmission intervals pass
 	// (without crossing the detection deadline) and look at the last packet sent
-	if !stuck && (deadline.IsZero() || time.Until(deadline) > 2200*time.Millisecond) {
-		time.Sleep(2100 * time.Millisecond)
+	wait := 2*max(1050*time.Millisecond, lastRx) + 100*time.Millisecond // the session may pace itself down to what the peer asked for
+	if !stuck && (deadline.IsZero() || time.Until(deadline) > wait+100*time.Millisecond) {
+		time.Sleep(wait)
 		synctest.Wait()
 		snd.mu.Lock()
 		n := len(snd.sent)
@@ -330,7 +341,7 @@ func runHistory(evs []bfdEv, sticky bool, lab map[string]int) (fail string, s *b
 		}
 		snd.mu.Unlock()
 		if n == 0 {
-			return "no control packet sent within 2.1 s", s, snd, stuck, stop
+			return fmt.Sprintf("no control packet sent within %v", wait), s, snd, stuck, stop
 		}
 		if last.state != model {
 			return fmt.Sprintf("control packets advertise state %v, RFC model state %v", last.state, model), s, snd, stuck, stop
@@ -355,6 +366,12 @@ func attachPeer(s *bfd.Session, snd *recSender, d time.Duration) (bool, func()) 
 	time.Sleep(d)
 	synctest.Wait()
 	up := s.IsUp() && peer.IsUp()
+	// ... and stay up: sampled over several detection times
+	for i := 0; i < 6 && up; i++ {
+		time.Sleep(700 * time.Millisecond)
+		synctest.Wait()
+		up = s.IsUp() && peer.IsUp()
+	}
 	return up, func() {
 		snd.mu.Lock()
 		snd.fwd = nil
@@ -377,7 +394,7 @@ func TestC16(t *testing.T) {
 	defer rec.Flush(t)
 	rec.Assume("virtual clock via testing/synctest; detection times carry a sub-millisecond fraction so that no event lands on a deadline",
 		"transmit jitter (math/rand) is not controlled; oracles only depend on detection deadlines", "Your Discriminator of generated packets is the session's own or zero where legal")
-	rec.Require("reached_up", "left_up_timer", "left_up_down", "discarded_packet", "recovery_checked", "pair_lossy", "pair_send_failure", "pair_silence_down", "advertised_state_checked")
+	rec.Require("reached_up", "left_up_timer", "left_up_down", "discarded_packet", "recovery_checked", "pair_lossy", "pair_send_failure", "pair_silence_down", "advertised_state_checked", "peer_asks_slow_pace")
 	sticky := adminDownSticky(t)
 	if sticky {
 		rec.Known(sigAdminDown)
